@@ -339,27 +339,27 @@ theorem frameExit_e {f : Fid} {s s' : St W} (ho : Owned P s) (h : frameExit P se
 structure OwnL (P : Prog) (i : Frid) (l : List Fid) (v : Bool) (s s' : St W) : Prop where
   owned : Owned P s'
   act : (s'.fr i).active = (s.fr i).active
-  entl : ∀ f, f ∈ l → s'.ent f = v
+  entl : l.Nodup → ∀ f, f ∈ l → s'.ent f = v
   others : ∀ g, g ∉ l → ¬ Desc P i (P.frame g).framer → s'.ent g = s.ent g
   flags : s.bad2 = true → s'.bad2 = true
   dblUp : s.dbl = true → s'.dbl = true
-  below : s'.bad2 = false → s.dbl = false → (∀ f, f ∈ l → s.ent f = !v) → EBelow P i s →
+  below : l.Nodup → s'.bad2 = false → s.dbl = false → (∀ f, f ∈ l → s.ent f = !v) → EBelow P i s →
     EBelow P i s' ∧ s'.dbl = false
 
 omit hlo hle in
 theorem own_list {i : Frid} {v : Bool} (g : Fid → St W → Except Err (St W))
     (hg : ∀ f s s', Owned P s → g f s = .ok s' → Own P f v s s') :
-    ∀ (l : List Fid), l.Nodup → (∀ f, f ∈ l → (P.frame f).framer = i) →
+    ∀ (l : List Fid), (∀ f, f ∈ l → (P.frame f).framer = i) →
       ∀ s s', Owned P s → forEach g l s = .ok s' → OwnL P i l v s s' := by
   intro l
   induction l with
   | nil =>
-    intro _ _ s s' ho h
+    intro _ s s' ho h
     simp only [forEach, Except.ok.injEq] at h; subst h
-    exact ⟨ho, rfl, fun _ hf => by simp at hf, fun _ _ _ => rfl, fun hq => hq, fun hq => hq,
-      fun _ hd _ hb => ⟨hb, hd⟩⟩
+    exact ⟨ho, rfl, fun _ _ hf => by simp at hf, fun _ _ _ => rfl, fun hq => hq, fun hq => hq,
+      fun _ _ hd _ hb => ⟨hb, hd⟩⟩
   | cons f fs ih =>
-    intro hnd hown s s' ho h
+    intro hown s s' ho h
     simp only [forEach] at h
     cases h1 : g f s with
     | error e => simp [h1] at h
@@ -372,32 +372,33 @@ theorem own_list {i : Frid} {v : Bool} (g : Fid → St W → Except Err (St W))
       have o1below : s1.bad2 = false → s.dbl = false → s.ent f = !v → EBelow P i s → EBelow P i s1 ∧ s1.dbl = false :=
         hf ▸ o1'.below
       have o1 := o1'
-      have hnd' := (List.nodup_cons.1 hnd)
-      have o2 := ih hnd'.2 (fun x hx => hown x (by simp [hx])) s1 s' o1.owned h
+      have o2 := ih (fun x hx => hown x (by simp [hx])) s1 s' o1.owned h
       have hfi : ¬ Desc P i (P.frame f).framer := fun hd => desc_ne wf hd hf
       refine ⟨o2.owned, o2.act.trans o1act, ?_, ?_, fun hq => o2.flags (o1.flags hq),
         fun hq => o2.dblUp (o1.dblUp hq), ?_⟩
-      · intro x hx
+      · intro hnd x hx
+        have hnd' := (List.nodup_cons.1 hnd)
         rcases List.mem_cons.1 hx with e | hx'
         · subst e; rw [o2.others x hnd'.1 hfi]; exact o1.entf
-        · exact o2.entl x hx'
+        · exact o2.entl hnd'.2 x hx'
       · intro x hx hd
         have hxf : x ≠ f := fun e => hx (by simp [e])
         have hxs : x ∉ fs := fun hh => hx (by simp [hh])
         rw [o2.others x hxs hd, o1others x hxf hd]
-      · intro hb hd hent hbl
+      · intro hnd hb hd hent hbl
+        have hnd' := (List.nodup_cons.1 hnd)
         have hb1 : s1.bad2 = false := by
           cases hq : s1.bad2 with
           | false => rfl
           | true => rw [o2.flags hq] at hb; cases hb
         have r1 := o1below hb1 hd (hent f (by simp)) hbl
-        apply o2.below hb r1.2 _ r1.1
+        apply o2.below hnd'.2 hb r1.2 _ r1.1
         intro x hx
         have hxf : x ≠ f := fun e => hnd'.1 (e ▸ hx)
         have hxi : ¬ Desc P i (P.frame x).framer := fun hd' => desc_ne wf hd' (hown x (by simp [hx]))
         rw [o1others x hxf hxi]; exact hent x (by simp [hx])
 
-theorem enter_e {i : Frid} {l : List Fid} (hnd : l.Nodup) (hown : ∀ f, f ∈ l → (P.frame f).framer = i)
+theorem enter_e {i : Frid} {l : List Fid} (hown : ∀ f, f ∈ l → (P.frame f).framer = i)
     {s s' : St W} (ho : Owned P s) (h : enter P sem lo i l s = .ok s') : OwnL P i l true s s' := by
   unfold enter at h
   obtain ⟨s0, hs0⟩ : ∃ x, x = (if l.isEmpty then s else restartClocks i s) := ⟨_, rfl⟩
@@ -408,29 +409,688 @@ theorem enter_e {i : Frid} {l : List Fid} (hnd : l.Nodup) (hown : ∀ f, f ∈ l
     · exact ⟨estep_restartClocks i s, (restartClocks_step (P := P) i s).1, (restartClocks_step (P := P) i s).2⟩
   have ho0 : Owned P s0 := owned_of_step q0.2.1 q0.2.2 ho
   have o := own_list wf (v := true) (frameEnter P sem lo) (fun f t t' hot ht => frameEnter_e wf hlo hle hot ht)
-    l hnd hown s0 s' ho0 h
+    l hown s0 s' ho0 h
   have hfr : (s0.fr i).active = (s.fr i).active := q0.2.2.1
   refine ⟨o.owned, o.act.trans hfr, o.entl, ?_, fun hq => o.flags (q0.1.flags hq),
     fun hq => o.dblUp (by rw [q0.1.dbl]; exact hq), ?_⟩
   · intro g hg hd; rw [o.others g hg hd, q0.1.ent]
-  · intro hb hd hent hbl
+  · intro hnd hb hd hent hbl
     have e0 := (EQ.of_estep wf q0.1 q0.2.1 hfr)
     have hb0 : s0.bad2 = false := by
       cases hq : s0.bad2 with
       | false => rfl
       | true => rw [o.flags hq] at hb; cases hb
     have r0 := e0.below hb0 hd hbl
-    exact o.below hb r0.2 (fun f hf => by rw [q0.1.ent]; exact hent f hf) r0.1
+    exact o.below hnd hb r0.2 (fun f hf => by rw [q0.1.ent]; exact hent f hf) r0.1
 
-theorem exit_e {i : Frid} {l : List Fid} (hnd : l.Nodup) (hown : ∀ f, f ∈ l → (P.frame f).framer = i)
+theorem exit_e {i : Frid} {l : List Fid} (hown : ∀ f, f ∈ l → (P.frame f).framer = i)
     {s s' : St W} (ho : Owned P s) (h : exit P sem lo l s = .ok s') : OwnL P i l false s s' := by
   unfold exit at h
   have o := own_list wf (v := false) (frameExit P sem lo) (fun f t t' hot ht => frameExit_e wf hlo hle hot ht)
-    l.reverse (List.nodup_reverse.2 hnd) (fun f hf => hown f (List.mem_reverse.1 hf)) s s' ho h
-  exact ⟨o.owned, o.act, fun f hf => o.entl f (List.mem_reverse.2 hf),
+    l.reverse (fun f hf => hown f (List.mem_reverse.1 hf)) s s' ho h
+  exact ⟨o.owned, o.act, fun hnd f hf => o.entl ((List.reverse_perm l).nodup_iff.2 hnd) f (List.mem_reverse.2 hf),
     fun g hg hd => o.others g (fun hh => hg (List.mem_reverse.1 hh)) hd, o.flags, o.dblUp,
-    fun hb hd hent hbl => o.below hb hd (fun f hf => hent f (List.mem_reverse.1 hf)) hbl⟩
+    fun hnd hb hd hent hbl => o.below ((List.reverse_perm l).nodup_iff.2 hnd) hb hd
+      (fun f hf => hent f (List.mem_reverse.1 hf)) hbl⟩
+
+omit wf hlo hle in
+theorem not_desc_of_not_reach {i j : Frid} (h : ¬ Reach P i j) : ¬ Desc P i j :=
+  fun ⟨_, hy, hr⟩ => h (Reach.step hy hr)
+
+omit wf hlo hle in
+theorem einvR_iff (i : Frid) (s : St W) : EInvR P i s ↔ EInv P i s ∧ EBelow P i s := by
+  constructor
+  · intro h
+    exact ⟨h i (Reach.refl i), fun y hy j hj => h j (Reach.step hy hj)⟩
+  · intro ⟨h1, h2⟩ j hj
+    cases hj with
+    | refl => exact h1
+    | step hc hr => exact h2 _ hc j hr
+
+variable (wfe : WFE P)
+include wfe
+
+/-- `Framer.enterAll` and the ghost map -/
+theorem enterAll_e {i : Frid} {s s' : St W} (ho : Owned P s) (h : enterAll P sem lo i s = .ok s') :
+    EMod P (Reach P i) s s' ∧
+    (s'.bad2 = false → s.dbl = false → EInvR P i s → EInvR P i s' ∧ s'.dbl = false) := by
+  have hspec := enterAll_spec wf hlo ho h
+  unfold enterAll at h
+  obtain ⟨s2, hs2⟩ : ∃ x, x = activate P i (P.framer i).first
+      ((markReenter (s.fr i).active.isSome s).modFr i (fun x => { x with done := false })) := ⟨_, rfl⟩
+  replace h : enter P sem lo i (s2.fr i).actives s2 = .ok s' := by subst hs2; exact h
+  have e2 : EStep s s2 := by
+    rw [hs2]
+    exact ((estep_markReenter _ s).trans (estep_modFr i _ _)).trans (estep_activate P i _ _)
+  have st2 : Step P i s s2 := by
+    rw [hs2]; unfold activate
+    exact ((step_markReenter P i _ s).trans (step_modFr P i _ _)).trans
+      ((step_modFr P i _ _).trans (step_emit P i _ _))
+  have hact2 : (s2.fr i).active = some (P.framer i).first ∧
+      (s2.fr i).actives = (P.frame (P.framer i).first).outline := by
+    rw [hs2]; simp [activate]
+  have hfirst : ∀ f, f ∈ (P.frame (P.framer i).first).outline → (P.frame f).framer = i := by
+    intro f hf; rw [wf.outlineOwn _ f hf, wf.firstOwn i]
+  have ho2 : Owned P s2 := by
+    constructor
+    · intro j f hf
+      by_cases e : j = i
+      · subst e; rw [hact2.2] at hf; exact hfirst f hf
+      · rw [st2.actives j e] at hf; exact ho.actives j f hf
+    · intro j a ha
+      by_cases e : j = i
+      · subst e; rw [hact2.1] at ha; cases ha; exact wf.firstOwn j
+      · rw [st2.active j e] at ha; exact ho.active j a ha
+  have o := enter_e wf hlo hle (l := (s2.fr i).actives) (by rw [hact2.2]; exact hfirst) ho2 h
+  rw [hact2.2] at o
+  have hnd := wfe.outlineNodup (P.framer i).first
+  constructor
+  · refine ⟨?_, fun hq => o.flags (e2.flags hq), fun hq => o.dblUp (by rw [e2.dbl]; exact hq)⟩
+    intro f hf
+    have hfl : f ∉ (P.frame (P.framer i).first).outline := fun hm => hf (by rw [hfirst f hm]; exact Reach.refl i)
+    rw [o.others f hfl (not_desc_of_not_reach hf), e2.ent]
+  · intro hb hd hinv
+    rw [einvR_iff] at hinv ⊢
+    have hb2 : s2.bad2 = false := by
+      cases hq : s2.bad2 with
+      | false => rfl
+      | true => rw [o.flags hq] at hb; cases hb
+    -- the framer was inactive: otherwise the re-entry flag is up
+    have hnone : (s.fr i).active = none := by
+      cases ha : (s.fr i).active with
+      | none => rfl
+      | some a =>
+        exfalso
+        have : (markReenter (s.fr i).active.isSome s).bad2 = true := by
+          simp only [St.bad2, markReenter, ha, Option.isSome_some]
+          cases s.left <;> simp
+        have h2 : s2.bad2 = true := by
+          rw [hs2]
+          exact ((estep_modFr i _ _).trans (estep_activate P i _ _)).flags this
+        rw [h2] at hb2; cases hb2
+    have hentfalse : ∀ f, (P.frame f).framer = i → s.ent f = false := by
+      intro f hf
+      cases hq : s.ent f with
+      | false => rfl
+      | true =>
+        obtain ⟨a, ha, _⟩ := (hinv.1 f hf).1 hq
+        rw [hnone] at ha; cases ha
+    have hbl2 : EBelow P i s2 := by
+      intro y hy j hj
+      have hji : j ≠ i := desc_ne wf ⟨y, hy, hj⟩
+      exact (hinv.2 y hy j hj).congr (st2.active j hji) (fun f _ => by rw [e2.ent])
+    have r := o.below hnd hb (by rw [e2.dbl]; exact hd)
+      (fun f hf => by rw [e2.ent]; simpa using hentfalse f (hfirst f hf)) hbl2
+    refine ⟨⟨?_, r.1⟩, r.2⟩
+    intro f hf
+    have ha' : (s'.fr i).active = some (P.framer i).first := hspec.2.2.2
+    rw [ha']
+    constructor
+    · intro he
+      refine ⟨_, rfl, ?_⟩
+      apply Classical.byContradiction
+      intro hnm
+      have hfi : ¬ Desc P i (P.frame f).framer := fun hd' => desc_ne wf hd' hf
+      rw [o.others f hnm hfi, e2.ent, hentfalse f hf] at he
+      cases he
+    · intro ⟨a, ha, hm⟩
+      cases ha
+      exact o.entl hnd f hm
+
+omit wf hlo hle wfe in
+theorem truncated_false {i : Frid} {s : St W} (h : truncated P i s = false) :
+    ((s.fr i).active = none ∧ (s.fr i).actives = []) ∨
+    ∃ a, (s.fr i).active = some a ∧ (s.fr i).actives = (P.frame a).outline := by
+  unfold truncated at h
+  cases ha : (s.fr i).active with
+  | none =>
+    rw [ha] at h
+    left; exact ⟨rfl, by simpa using h⟩
+  | some a =>
+    rw [ha] at h
+    right; exact ⟨a, rfl, by simpa using h⟩
+
+/-- `Framer.exitAll` and the ghost map -/
+theorem exitAll_e {i : Frid} {abort : Bool} {s s' : St W} (ho : Owned P s)
+    (h : exitAll P sem lo abort i s = .ok s') :
+    EMod P (Reach P i) s s' ∧
+    (s'.bad2 = false → s.dbl = false → EInvR P i s → EInvR P i s' ∧ s'.dbl = false) := by
+  have hspec := exitAll_spec wf hlo ho h
+  unfold exitAll at h
+  obtain ⟨s0, hs0⟩ : ∃ x, x = markLeft (truncated P i s) s := ⟨_, rfl⟩
+  rw [← hs0] at h
+  have e0 : EStep s s0 := hs0 ▸ estep_markLeft _ s
+  have hfr0 : ∀ j, s0.fr j = s.fr j := fun j => by rw [hs0]; rfl
+  have ho0 : Owned P s0 := ⟨fun j f hf => ho.actives j f (by rw [← hfr0]; exact hf),
+    fun j a ha => ho.active j a (by rw [← hfr0]; exact ha)⟩
+  cases h1 : exit P sem lo (s.fr i).actives s0 with
+  | error e => simp [h1] at h
+  | ok s1 =>
+    simp only [h1, Except.ok.injEq] at h
+    have hown : ∀ f, f ∈ (s.fr i).actives → (P.frame f).framer = i := fun f hf => ho.actives i f hf
+    have o := exit_e wf hlo hle hown ho0 h1
+    have e13 : EStep s1 s' := by
+      rw [← h]; split
+      · exact estep_deactivate i s1
+      · exact (estep_deactivate i s1).trans (estep_modFr i _ _)
+    constructor
+    · refine ⟨?_, fun hq => e13.flags (o.flags (e0.flags hq)),
+        fun hq => by rw [e13.dbl]; exact o.dblUp (by rw [e0.dbl]; exact hq)⟩
+      intro f hf
+      have hfl : f ∉ (s.fr i).actives := fun hm => hf (by rw [hown f hm]; exact Reach.refl i)
+      rw [e13.ent, o.others f hfl (not_desc_of_not_reach hf), e0.ent]
+    · intro hb hd hinv
+      rw [einvR_iff] at hinv ⊢
+      have hb1 : s1.bad2 = false := by
+        cases hq : s1.bad2 with
+        | false => rfl
+        | true => rw [e13.flags hq] at hb; cases hb
+      have hb0 : s0.bad2 = false := by
+        cases hq : s0.bad2 with
+        | false => rfl
+        | true => rw [o.flags hq] at hb1; cases hb1
+      have htr : truncated P i s = false := by
+        cases hq : truncated P i s with
+        | false => rfl
+        | true =>
+          exfalso
+          have : s0.bad2 = true := by
+            rw [hs0]; simp only [St.bad2, markLeft, hq]; simp
+          rw [this] at hb0; cases hb0
+      have hbl0 : EBelow P i s0 := ebelow_of_note wf hfr0 (fun g _ => by rw [e0.ent]) hinv.2
+      have hact' : (s'.fr i).active = none := hspec.2.2.2.1
+      -- the exited frames are exactly the entered frames of `i`
+      have hall : ∀ f, f ∈ (s.fr i).actives → s0.ent f = !false := by
+        intro f hf
+        rw [e0.ent]
+        rcases truncated_false htr with ⟨_, hnil⟩ | ⟨a, ha, hl⟩
+        · rw [hnil] at hf; cases hf
+        · simpa using (hinv.1 f (hown f hf)).2 ⟨a, ha, hl ▸ hf⟩
+      have hnd : (s.fr i).actives.Nodup := by
+        rcases truncated_false htr with ⟨_, hnil⟩ | ⟨a, _, hl⟩
+        · rw [hnil]; exact List.nodup_nil
+        · rw [hl]; exact wfe.outlineNodup a
+      have r := o.below hnd hb1 (by rw [e0.dbl]; exact hd) hall hbl0
+      have hbl' : EBelow P i s' := by
+        intro y hy j hj
+        have hji : j ≠ i := desc_ne wf ⟨y, hy, hj⟩
+        have hstep : (s'.fr j).active = (s1.fr j).active := by
+          rw [← h]; split <;> simp [deactivate, hji]
+        exact (r.1 y hy j hj).congr hstep (fun f _ => by rw [e13.ent])
+      refine ⟨⟨?_, hbl'⟩, by rw [e13.dbl]; exact r.2⟩
+      intro f hf
+      rw [hact']
+      constructor
+      · intro he
+        exfalso
+        rw [e13.ent] at he
+        by_cases hm : f ∈ (s.fr i).actives
+        · rw [o.entl hnd f hm] at he; cases he
+        · have hfi : ¬ Desc P i (P.frame f).framer := fun hd' => desc_ne wf hd' hf
+          rw [o.others f hm hfi, e0.ent] at he
+          obtain ⟨a, ha, hma⟩ := (hinv.1 f hf).1 he
+          rcases truncated_false htr with ⟨hn, _⟩ | ⟨a', ha', hl⟩
+          · rw [hn] at ha; cases ha
+          · rw [ha'] at ha; cases ha; exact hm (hl ▸ hma)
+      · intro ⟨a, ha, _⟩; cases ha
+
+/-! #### recur, segue -/
+
+/-- a part of an operation of framer `i`, as seen by the bracket invariant of `i` and everything below -/
+def EP (P : Prog) (i : Frid) (s s' : St W) : Prop :=
+  Owned P s → EMod P (Reach P i) s s' ∧ Owned P s' ∧
+    (s'.bad2 = false → s.dbl = false → EInvR P i s → EInvR P i s' ∧ s'.dbl = false)
+
+omit wf hlo hle wfe in
+theorem EP.refl (i : Frid) (s : St W) : EP P i s s := fun ho => ⟨EMod.refl _ _ _, ho, fun _ hd h => ⟨h, hd⟩⟩
+
+omit wf hlo hle wfe in
+theorem EP.trans {i : Frid} {a b c : St W} (h1 : EP P i a b) (h2 : EP P i b c) : EP P i a c := by
+  intro ho
+  have r1 := h1 ho
+  have r2 := h2 r1.2.1
+  refine ⟨r1.1.trans r2.1, r2.2.1, ?_⟩
+  intro hb hd hinv
+  have q1 := r1.2.2 (r2.1.bad2_false hb) hd hinv
+  exact r2.2.2 hb q1.2 q1.1
+
+omit hlo hle wfe in
+theorem EP.of_eqo {i : Frid} {s s' : St W} (h : EQO P i s s') : EP P i s s' := by
+  intro ho
+  have r := h ho
+  refine ⟨r.1.emod.mono (fun j ⟨y, hy, hr⟩ => Reach.step hy hr), r.2, ?_⟩
+  intro hb hd hinv
+  rw [einvR_iff] at hinv ⊢
+  have q := r.1.below hb hd hinv.2
+  refine ⟨⟨?_, q.1⟩, q.2⟩
+  exact hinv.1.congr r.1.act (fun f hf => r.1.emod.ent f (fun hd' => desc_ne wf hd' hf))
+
+omit wfe in
+theorem frameRecur_eqo {f : Fid} {s s' : St W} (h : frameRecur P sem lo f s = .ok s') :
+    EQO P (P.frame f).framer s s' := by
+  unfold frameRecur at h
+  refine EQO.trans (b := s.emit (.recur f)) (EQO.of_step wf (estep_emit _ s) ⟨step_emit P _ _ s, Keep.refl _ _⟩) ?_
+  refine EQO.trans (EQO.of_step wf (estep_runActs sem .recur f _ _)
+    (runActs_step P sem .recur f _ _ (wf.doneRe f) _)) ?_
+  refine forEach_rel (R := EQO P (P.frame f).framer) (EQO.refl _) (fun _ _ _ => EQO.trans) _ _ ?_ _ _ h
+  intro y hy t t' ht
+  exact EQO.ofLo wf hlo.recur hle.recur (plain_child hy) ht
+
+omit wf hlo hle wfe in
+theorem frames_eqo {i : Frid} (g : Fid → St W → Except Err (St W))
+    (hg : ∀ f s s', g f s = .ok s' → EQO P (P.frame f).framer s s') :
+    ∀ (l : List Fid) (s s' : St W), (Owned P s → ∀ f, f ∈ l → (P.frame f).framer = i) →
+      forEach g l s = .ok s' → EQO P i s s' := by
+  intro l s s' hown h ho
+  have hown' := hown ho
+  have : EQO P i s s' := by
+    refine forEach_rel (R := EQO P i) (EQO.refl _) (fun _ _ _ => EQO.trans) _ _ ?_ _ _ h
+    intro f hf t t' ht
+    have := hg f t t' ht
+    rw [hown' f hf] at this
+    exact this
+  exact this ho
+
+omit wfe in
+theorem recur_eqo {i : Frid} {s s' : St W} (h : recur P sem lo i s = .ok s') : EQO P i s s' := by
+  unfold recur at h
+  exact frames_eqo _ (fun f t t' ht => frameRecur_eqo wf hlo hle ht) _ s s' (fun ho f hf => ho.actives i f hf) h
+
+omit wfe in
+/-- the Suspender never enters or exits a frame of its own framer and keeps the active frame -/
+theorem suspend_eqo {i : Frid} {f : Fid} (hf : (P.frame f).framer = i) {needs : List NeedId} {aux : Frid}
+    {tracts : List Act} (hp : Preact.suspend needs aux tracts ∈ (P.frame f).preacts) {s s' : St W} {b : Bool}
+    (h : suspend P sem lo i f needs aux tracts s = .ok (b, s')) : EQO P i s s' := by
+  have c : Clause P i f aux := ⟨hf, susp_mem hp⟩
+  have hch := c.kid.child
+  have tr := wf.donePre f _ hp
+  simp only [PreactDoneOnly, hf] at tr
+  unfold suspend at h
+  by_cases hd : (s.fr aux).done = true
+  · simp only [hd, if_true] at h
+    unfold suspendStart at h
+    by_cases hn : needsHold sem needs s = true
+    · simp only [hn, if_true] at h
+      by_cases ho' : ownedElsewhere aux f s = true
+      · simp only [ho', if_true, Except.ok.injEq, Prod.mk.injEq] at h; rw [← h.2]; exact EQO.refl _ _
+      · simp only [ho', if_false, Bool.false_eq_true] at h
+        cases hcs : lo.checkStart aux s with
+        | error e => simp [hcs] at h
+        | ok cs =>
+          cases cs with
+          | false => simp only [hcs, Except.ok.injEq, Prod.mk.injEq] at h; rw [← h.2]; exact EQO.refl _ _
+          | true =>
+            simp only [hcs] at h
+            unfold suspendEnter at h
+            obtain ⟨sb, hsb⟩ : ∃ x, x = claim P aux f (runActs sem .transit f tracts s) := ⟨_, rfl⟩
+            rw [← hsb] at h
+            simp only [] at h
+            have qb : EQO P i s sb := by
+              rw [hsb]
+              exact EQO.trans (EQO.of_step wf (estep_runActs sem .transit f tracts s) (runActs_step P sem .transit f i tracts tr s))
+                (EQO.of_step wf (estep_claim P aux f _) (claim_step wf hch f _))
+            cases h1 : lo.enterAll aux sb with
+            | error e => simp [h1] at h
+            | ok sc =>
+              simp only [h1] at h
+              cases h2 : lo.recur aux sc with
+              | error e => simp [h2] at h
+              | ok sd =>
+                simp only [h2] at h
+                have qd : EQO P i s sd :=
+                  EQO.trans qb (EQO.trans (EQO.ofLo wf hlo.enterAll hle.enterAll hch h1)
+                    (EQO.ofLo wf hlo.recur hle.recur hch h2))
+                by_cases hdd : (sd.fr aux).done = true
+                · simp only [hdd, if_true] at h
+                  cases h3 : deactivateAux P lo aux sd with
+                  | error e => simp [h3] at h
+                  | ok se =>
+                    simp only [h3, Except.ok.injEq, Prod.mk.injEq] at h
+                    rw [← h.2]
+                    exact EQO.trans qd (deactivateAux_eqo wf hlo hle hch h3)
+                · simp only [hdd, if_false, Except.ok.injEq, Prod.mk.injEq, Bool.false_eq_true] at h
+                  rw [← h.2]
+                  refine EQO.trans qd ?_
+                  intro hod
+                  have e1 : EStep sd (truncate P i f (markOverlap (otherRunning P i aux sd) sd)) :=
+                    (estep_markOverlap _ sd).trans (estep_truncate P i f _)
+                  have st1 : Step P i sd (truncate P i f (markOverlap (otherRunning P i aux sd) sd)) := by
+                    unfold truncate
+                    exact (step_markOverlap P i _ sd).trans ((step_modFr P i _ _).trans (step_emit P i _ _))
+                  refine ⟨EQ.of_estep wf e1 st1 (by simp [truncate]), ?_⟩
+                  apply owned_truncate
+                  · exact ⟨fun j g hg => hod.actives j g hg, fun j a ha => hod.active j a ha⟩
+                  · intro g hg; rw [wf.headOwn f g hg, hf]
+    · simp only [hn, if_false, Except.ok.injEq, Prod.mk.injEq, Bool.false_eq_true] at h
+      rw [← h.2]; exact EQO.refl _ _
+  · simp only [hd, if_false, Bool.false_eq_true] at h
+    unfold suspendRun at h
+    cases h1 : lo.segue aux s with
+    | error e => simp [h1] at h
+    | ok sa =>
+      simp only [h1] at h
+      cases h2 : lo.recur aux sa with
+      | error e => simp [h2] at h
+      | ok sb =>
+        simp only [h2] at h
+        have qb : EQO P i s sb :=
+          EQO.trans (EQO.ofLo wf hlo.segue hle.segue hch h1) (EQO.ofLo wf hlo.recur hle.recur hch h2)
+        by_cases hdd : (sb.fr aux).done = true
+        · simp only [hdd, if_true] at h
+          cases h3 : deactivateAux P lo aux sb with
+          | error e => simp [h3] at h
+          | ok sc =>
+            simp only [h3] at h
+            unfold reactivate at h
+            cases ha : (sc.fr i).active with
+            | none => simp [ha] at h
+            | some a =>
+              simp only [ha, Except.ok.injEq, Prod.mk.injEq] at h
+              rw [← h.2]
+              refine EQO.trans (EQO.trans qb (deactivateAux_eqo wf hlo hle hch h3)) ?_
+              intro hoc
+              have e1 : EStep sc ((sc.modFr i (fun x => { x with actives := (P.frame a).outline })).emit (.reactivate i)) :=
+                (estep_modFr i _ sc).trans (estep_emit _ _)
+              have st1 : Step P i sc ((sc.modFr i (fun x => { x with actives := (P.frame a).outline })).emit (.reactivate i)) :=
+                (step_modFr P i _ sc).trans (step_emit P i _ _)
+              refine ⟨EQ.of_estep wf e1 st1 (by simp), ?_⟩
+              have hai := hoc.active i a ha
+              constructor
+              · intro j g hg
+                by_cases e : j = i
+                · subst e
+                  simp only [fr_emit, fr_modFr, if_true] at hg
+                  rw [wf.outlineOwn a g hg, hai]
+                · simp only [fr_emit, fr_modFr, e, if_false] at hg
+                  exact hoc.actives j g hg
+              · intro j a' ha'
+                by_cases e : j = i
+                · subst e
+                  simp only [fr_emit, fr_modFr, if_true] at ha'
+                  exact hoc.active j a' ha'
+                · simp only [fr_emit, fr_modFr, e, if_false] at ha'
+                  exact hoc.active j a' ha'
+        · simp only [hdd, if_false, Except.ok.injEq, Prod.mk.injEq, Bool.false_eq_true] at h
+          rw [← h.2]; exact qb
+
+/-- `Transiter.action` and the ghost map -/
+theorem transit_ep {i : Frid} {f : Fid} (hf : (P.frame f).framer = i) {needs : List NeedId} {far : Fid}
+    {tracts : List Act} (hp : Preact.transit needs far tracts ∈ (P.frame f).preacts) {s s' : St W} {b : Bool}
+    (h : transit P sem lo i f needs far tracts s = .ok (b, s')) : EP P i s s' := by
+  intro ho
+  unfold transit at h
+  split at h
+  · simp only [Except.ok.injEq, Prod.mk.injEq] at h; rw [← h.2]; exact EP.refl _ _ ho
+  · obtain ⟨nears, hnears⟩ : ∃ x, x = (s.fr i).actives := ⟨_, rfl⟩
+    obtain ⟨r, hr⟩ : ∃ x, x = exEn far nears (P.frame far).outline := ⟨_, rfl⟩
+    rw [← hnears, ← hr] at h
+    simp only [] at h
+    cases hc : checkEnter P sem lo r.2.1 r.1 s with
+    | error e => simp [hc] at h
+    | ok c =>
+      cases c with
+      | false => simp only [hc, Except.ok.injEq, Prod.mk.injEq] at h; rw [← h.2]; exact EP.refl _ _ ho
+      | true =>
+        simp only [hc] at h
+        have hfar : (P.frame far).framer = i := by rw [wf.farOwn f needs far tracts hp, hf]
+        have hexits : ∀ g, g ∈ r.1 → (P.frame g).framer = i := by
+          intro g hg; rw [hr] at hg
+          exact ho.actives i g (hnears ▸ Outline.exEn_exits_mem _ _ _ g hg)
+        have hen : ∀ g, g ∈ r.2.1 → (P.frame g).framer = i := by
+          intro g hg; rw [hr] at hg
+          rw [wf.outlineOwn far g (Outline.exEn_enters_mem _ _ _ g hg), hfar]
+        have hre : ∀ g, g ∈ r.2.2 → (P.frame g).framer = i := by
+          intro g hg; rw [hr] at hg
+          exact ho.actives i g (hnears ▸ Outline.exEn_reexens_mem _ _ _ g hg)
+        have hne : r.2.1 ≠ [] := by
+          intro e
+          unfold checkEnter at hc
+          simp [e] at hc
+        obtain ⟨k, hk1, hk2, hk3, hk4⟩ := Outline.exEn_decomp far nears (P.frame far).outline (hr ▸ hne)
+        rw [← hr] at hk1 hk2 hk3
+        obtain ⟨sa, hsa⟩ : ∃ x, x = runActs sem .transit f tracts (markLeft (truncated P i s) s) := ⟨_, rfl⟩
+        rw [← hsa] at h
+        have tr := wf.donePre f _ hp
+        simp only [PreactDoneOnly, hf] at tr
+        have ea : EStep s sa := by
+          rw [hsa]; exact (estep_markLeft _ s).trans (estep_runActs sem .transit f tracts _)
+        have sta : Step P i s sa ∧ Keep i s sa := by
+          have r0 := runActs_step P sem .transit f i tracts tr (markLeft (truncated P i s) s)
+          rw [← hsa] at r0
+          exact ⟨(step_markLeft P i _ s).trans r0.1, Keep.trans (Keep.refl _ _) r0.2⟩
+        have hoa : Owned P sa := owned_of_step sta.1 sta.2 ho
+        cases hx : exit P sem lo r.1 sa with
+        | error e => simp [hx] at h
+        | ok sb =>
+          simp only [hx] at h
+          have ox := exit_e wf hlo hle hexits hoa hx
+          obtain ⟨sd, hsd⟩ : ∃ x, x = renter P sem r.2.2 (rexit P sem r.2.2 sb) := ⟨_, rfl⟩
+          rw [← hsd] at h
+          have ed : EStep sb sd := hsd ▸ (estep_rexit P sem r.2.2 sb).trans (estep_renter P sem r.2.2 _)
+          have std : Step P i sb sd ∧ Keep i sb sd := by
+            have c1 := rexit_step wf (sem := sem) r.2.2 hre sb
+            have c2 := renter_step wf (sem := sem) r.2.2 hre (rexit P sem r.2.2 sb)
+            rw [hsd]; exact ⟨c1.1.trans c2.1, c1.2.trans c2.2⟩
+          have hod : Owned P sd := owned_of_step std.1 std.2 ox.owned
+          cases he : enter P sem lo i r.2.1 sd with
+          | error e => simp [he] at h
+          | ok se =>
+            simp only [he, Except.ok.injEq, Prod.mk.injEq] at h
+            have oe := enter_e wf hlo hle hen hod he
+            have hs' : s' = activate P i far se := h.2.symm
+            have ef : EStep se s' := hs' ▸ estep_activate P i far se
+            have hact' : (s'.fr i).active = some far := by rw [hs']; simp [activate]
+            have hown' : Owned P s' := by
+              rw [hs']
+              exact owned_activate oe.owned (fun g hg => by rw [wf.outlineOwn far g hg, hfar]) hfar
+            refine ⟨?_, hown', ?_⟩
+            · refine ⟨?_, fun hq => ef.flags (oe.flags (ed.flags (ox.flags (ea.flags hq)))),
+                fun hq => by rw [ef.dbl]; exact oe.dblUp (by rw [ed.dbl]; exact ox.dblUp (by rw [ea.dbl]; exact hq))⟩
+              intro g hg
+              have hnd := not_desc_of_not_reach hg
+              have h1 : g ∉ r.1 := fun hm => hg (by rw [hexits g hm]; exact Reach.refl i)
+              have h2 : g ∉ r.2.1 := fun hm => hg (by rw [hen g hm]; exact Reach.refl i)
+              rw [ef.ent, oe.others g h2 hnd, ed.ent, ox.others g h1 hnd, ea.ent]
+            · intro hb hd hinv
+              rw [einvR_iff] at hinv ⊢
+              have hbe : se.bad2 = false := by
+                cases hq : se.bad2 with
+                | false => rfl
+                | true => rw [ef.flags hq] at hb; cases hb
+              have hbd : sd.bad2 = false := by
+                cases hq : sd.bad2 with
+                | false => rfl
+                | true => rw [oe.flags hq] at hbe; cases hbe
+              have hbb : sb.bad2 = false := by
+                cases hq : sb.bad2 with
+                | false => rfl
+                | true => rw [ed.flags hq] at hbd; cases hbd
+              have hba : sa.bad2 = false := by
+                cases hq : sa.bad2 with
+                | false => rfl
+                | true => rw [ox.flags hq] at hbb; cases hbb
+              have htr : truncated P i s = false := by
+                cases hq : truncated P i s with
+                | false => rfl
+                | true =>
+                  exfalso
+                  have : (markLeft (truncated P i s) s).bad2 = true := by
+                    simp only [St.bad2, markLeft, hq]; simp
+                  have := (estep_runActs sem .transit f tracts _).flags this
+                  rw [← hsa, hba] at this; cases this
+              -- the outline is not truncated: the current frames are the outline of the active frame
+              obtain ⟨a, ha, hl⟩ : ∃ a, (s.fr i).active = some a ∧ nears = (P.frame a).outline := by
+                rcases truncated_false htr with ⟨_, hnil⟩ | ⟨a, ha, hl⟩
+                · exfalso
+                  rw [hnears, hnil] at hr
+                  rw [hr, Outline.exEn_nil_left] at hne
+                  exact hne rfl
+                · exact ⟨a, ha, by rw [hnears, hl]⟩
+              have hnn : nears.Nodup := hl ▸ wfe.outlineNodup a
+              have hfn : (P.frame far).outline.Nodup := wfe.outlineNodup far
+              have hbla : EBelow P i sa := by
+                intro y hy j hj
+                have hji : j ≠ i := desc_ne wf ⟨y, hy, hj⟩
+                exact (hinv.2 y hy j hj).congr (sta.1.active j hji) (fun g _ => by rw [ea.ent])
+              have hentn : ∀ g, (P.frame g).framer = i → (s.ent g = true ↔ g ∈ nears) := by
+                intro g hg
+                rw [hinv.1 g hg, ha, hl]
+                constructor
+                · intro ⟨a', ha', hm⟩; cases ha'; exact hm
+                · intro hm; exact ⟨a, rfl, hm⟩
+              have hndx : r.1.Nodup := by rw [hk1]; exact hnn.sublist (List.drop_sublist k nears)
+              have hnde : r.2.1.Nodup := by rw [hk2]; exact hfn.sublist (List.drop_sublist k _)
+              have rx := ox.below hndx hbb (by rw [ea.dbl]; exact hd)
+                (fun g hg => by
+                  rw [ea.ent]
+                  have : g ∈ nears := by rw [hk1] at hg; exact List.mem_of_mem_drop hg
+                  simpa using (hentn g (hexits g hg)).2 this) hbla
+              have hbld : EBelow P i sd := by
+                intro y hy j hj
+                have hji : j ≠ i := desc_ne wf ⟨y, hy, hj⟩
+                exact (rx.1 y hy j hj).congr (std.1.active j hji) (fun g _ => by rw [ed.ent])
+              -- every frame to be entered is not entered at that point
+              have hentd : ∀ g, (P.frame g).framer = i → g ∈ r.2.1 → sd.ent g = false := by
+                intro g hg hm
+                rw [ed.ent]
+                by_cases hxm : g ∈ r.1
+                · simpa using ox.entl hndx g hxm
+                · have hgi : ¬ Desc P i (P.frame g).framer := fun hd' => desc_ne wf hd' hg
+                  rw [ox.others g hxm hgi, ea.ent]
+                  cases hq : s.ent g with
+                  | false => rfl
+                  | true =>
+                    exfalso
+                    have hgn : g ∈ nears := (hentn g hg).1 hq
+                    rw [← List.take_append_drop k nears, List.mem_append] at hgn
+                    rcases hgn with ht | hdp
+                    · rw [hk4] at ht
+                      rw [hk2] at hm
+                      have := hfn
+                      rw [← List.take_append_drop k (P.frame far).outline] at this
+                      exact (List.nodup_append.1 this).2.2 g ht g hm rfl
+                    · exact hxm (hk1 ▸ hdp)
+              have re := oe.below hnde hbe (by rw [ed.dbl]; exact rx.2)
+                (fun g hg => by simpa using hentd g (hen g hg) hg) hbld
+              have hbl' : EBelow P i s' := by
+                intro y hy j hj
+                have hji : j ≠ i := desc_ne wf ⟨y, hy, hj⟩
+                have : (s'.fr j).active = (se.fr j).active := by rw [hs']; simp [activate, hji]
+                exact (re.1 y hy j hj).congr this (fun g _ => by rw [ef.ent])
+              refine ⟨⟨?_, hbl'⟩, by rw [ef.dbl]; exact re.2⟩
+              intro g hg
+              have hgi : ¬ Desc P i (P.frame g).framer := fun hd' => desc_ne wf hd' hg
+              have key := Outline.entered_after_transit nears (P.frame far).outline k hnn hfn hk4
+                s.ent sb.ent s'.ent g (hentn g hg)
+                ⟨fun hm => by simpa using ox.entl hndx g (hk1 ▸ hm),
+                 fun hm => by rw [ox.others g (fun hh => hm (hk1 ▸ hh)) hgi, ea.ent]⟩
+                ⟨fun hm => by rw [ef.ent]; exact oe.entl hnde g (hk2 ▸ hm),
+                 fun hm => by rw [ef.ent, oe.others g (fun hh => hm (hk2 ▸ hh)) hgi, ed.ent]⟩
+              rw [key, hact']
+              constructor
+              · intro hm; exact ⟨far, rfl, hm⟩
+              · intro ⟨a', ha', hm⟩; cases ha'; exact hm
+
+theorem runPreact_ep {i : Frid} {f : Fid} (hf : (P.frame f).framer = i) {p : Preact}
+    (hp : p ∈ (P.frame f).preacts) {s s' : St W} {b : Bool}
+    (h : runPreact P sem lo i f p s = .ok (b, s')) : EP P i s s' := by
+  cases p with
+  | act a =>
+    simp only [runPreact, Except.ok.injEq, Prod.mk.injEq] at h
+    rw [← h.2]
+    have da := wf.donePre f _ hp
+    simp only [PreactDoneOnly, hf] at da
+    exact EP.of_eqo wf (EQO.of_step wf (estep_runAct sem .precur f a s) (runAct_step P sem .precur f i a da s))
+  | transit needs far tracts => exact transit_ep wf hlo hle wfe hf hp h
+  | suspend needs aux tracts => exact EP.of_eqo wf (suspend_eqo wf hlo hle hf hp h)
+
+theorem precurLoop_ep {i : Frid} {f : Fid} (hf : (P.frame f).framer = i) (ps : List Preact)
+    (hps : ∀ p, p ∈ ps → p ∈ (P.frame f).preacts) :
+    ∀ (s s' : St W) (b : Bool), precurLoop P sem lo i f ps s = .ok (b, s') → EP P i s s' := by
+  induction ps with
+  | nil =>
+    intro s s' b h
+    simp only [precurLoop, Except.ok.injEq, Prod.mk.injEq] at h
+    rw [← h.2]; exact EP.refl _ _
+  | cons p ps ih =>
+    intro s s' b h
+    simp only [precurLoop] at h
+    cases h1 : runPreact P sem lo i f p s with
+    | error e => simp [h1] at h
+    | ok r =>
+      obtain ⟨b1, s1⟩ := r
+      have p1 := runPreact_ep wf hlo hle wfe hf (hps p (by simp)) h1
+      cases b1 with
+      | true =>
+        simp only [h1, Except.ok.injEq, Prod.mk.injEq] at h
+        rw [← h.2]; exact p1
+      | false =>
+        simp only [h1] at h
+        exact EP.trans p1 (ih (fun q hq => hps q (by simp [hq])) s1 s' b h)
+
+theorem segueLoop_ep {i : Frid} (fs : List Fid) (hfs : ∀ f, f ∈ fs → (P.frame f).framer = i) :
+    ∀ (s s' : St W), segueLoop P sem lo i fs s = .ok s' → EP P i s s' := by
+  induction fs with
+  | nil =>
+    intro s s' h
+    simp only [segueLoop, Except.ok.injEq] at h
+    rw [← h]; exact EP.refl _ _
+  | cons f fs ih =>
+    intro s s' h
+    simp only [segueLoop, framePrecur] at h
+    cases h1 : precurLoop P sem lo i f (P.frame f).preacts s with
+    | error e => simp [h1] at h
+    | ok r =>
+      obtain ⟨b1, s1⟩ := r
+      have p1 := precurLoop_ep wf hlo hle wfe (hfs f (by simp)) _ (fun _ hp => hp) s s1 b1 h1
+      cases b1 with
+      | true =>
+        simp only [h1, Except.ok.injEq] at h
+        rw [← h]; exact p1
+      | false =>
+        simp only [h1] at h
+        exact EP.trans p1 (ih (fun g hg => hfs g (by simp [hg])) s1 s' h)
+
+theorem segue_ep {i : Frid} {s s' : St W} (h : segue P sem lo i s = .ok s') : EP P i s s' := by
+  intro ho
+  unfold segue at h
+  obtain ⟨s0, hs0⟩ : ∃ x, x = updateClocks i s := ⟨_, rfl⟩
+  rw [← hs0] at h
+  simp only [] at h
+  have q0 : EQO P i s s0 := hs0 ▸ EQO.of_step wf (estep_updateClocks i s) (updateClocks_step i s)
+  cases h1 : forEach (fun f s => forEach lo.segue (P.frame f).auxes s) (s0.fr i).actives s0 with
+  | error e => simp [h1] at h
+  | ok s1 =>
+    simp only [h1] at h
+    have r0 := q0 ho
+    have q1 : EQO P i s0 s1 := by
+      refine frames_eqo _ ?_ _ s0 s1 (fun ho0 f hf => ho0.actives i f hf) h1
+      intro f t t' ht
+      refine forEach_rel (R := EQO P (P.frame f).framer) (EQO.refl _) (fun _ _ _ => EQO.trans) _ _ ?_ _ _ ht
+      intro y hy u u' hu
+      exact EQO.ofLo wf hlo.segue hle.segue (plain_child hy) hu
+    have r1 := (EQO.trans q0 q1) ho
+    have p2 := segueLoop_ep wf hlo hle wfe (s1.fr i).actives (fun f hf => r1.2.actives i f hf) s1 s' h
+    exact EP.trans (EP.of_eqo wf (EQO.trans q0 q1)) p2 ho
+
+/-- the entry points of the next level satisfy the ghost-map specification too -/
+theorem nextOps_specE : LoSpecE P (nextOps P sem lo) := by
+  refine ⟨⟨?_, ?_⟩, ⟨?_, ?_⟩, ⟨?_, ?_⟩, ⟨?_, ?_⟩⟩
+  · intro y s s' ho h; exact (enterAll_e wf hlo hle wfe ho h).1
+  · intro y s s' ho h; exact (enterAll_e wf hlo hle wfe ho h).2
+  · intro y s s' ho h; exact (exitAll_e wf hlo hle wfe ho h).1
+  · intro y s s' ho h; exact (exitAll_e wf hlo hle wfe ho h).2
+  · intro y s s' ho h; exact (EP.of_eqo wf (recur_eqo wf hlo hle h) ho).1
+  · intro y s s' ho h; exact (EP.of_eqo wf (recur_eqo wf hlo hle h) ho).2.2
+  · intro y s s' ho h; exact (segue_ep wf hlo hle wfe h ho).1
+  · intro y s s' ho h; exact (segue_ep wf hlo hle wfe h ho).2.2
 
 end walk
+
+theorem opsAt_specE {P : Prog} {rank : Frid → Nat} (wf : WF P rank) (wfe : WFE P) (sem : Sem W) :
+    ∀ n, LoSpecE P (opsAt P sem n)
+  | 0 => by
+    refine ⟨⟨?_, ?_⟩, ⟨?_, ?_⟩, ⟨?_, ?_⟩, ⟨?_, ?_⟩⟩ <;> intros <;> simp [opsAt, Ops.bottom] at *
+  | n + 1 => nextOps_specE wf (opsAt_spec wf sem n) (opsAt_specE wf wfe sem n) wfe
 
 end Ioflo.Flo
